@@ -82,18 +82,41 @@ Definition m_kf (d : byte) (t : table) : Z := if kf_leading_ws_after_numeric d t
 
 (* ------------------------------------------------------------------ the same with the model's own printf / strtod
    (FmtModel.F_model / P_model, precisions from Gen.v): no oracle is supplied by the harness *)
-Definition m_recfile2 := m_recfile_gen F_model P_model.
-Definition m_sfile2 := m_sfile_gen F_model P_model.
-Definition extra_bits2 (d : byte) (t : table) : Z :=
+(* every floating-point cell is printed and parsed once per case: the values of F_model / P_model on the cells of
+   the table are tabulated first; any other argument (a token produced by a misaligned read) is computed directly *)
+Fixpoint fcells_row (fs : list fld) (r : row) : list (nat * list byte) :=
+  match fs, r with
+  | f :: fs', els :: r' =>
+      (match fkind f with KFlt sz => map (fun e => (sz, e)) els | _ => [] end) ++ fcells_row fs' r'
+  | _, _ => []
+  end.
+Definition ftab (t : table) : tab3 :=
+  map (fun c => (fst c, snd c, F_model (fst c) (snd c)))
+      (concat (map (fun r => fcells_row (tdt t) (to_native_row (tdt t) r)) (trows t))).
+Definition ptab (ft : tab3) : tab3 := map (fun c => (fst (fst c), snd c, P_model (fst (fst c)) (snd c))) ft.
+Fixpoint lookup_or (f : nat -> list byte -> list byte) (tab : tab3) (sz : nat) (k : list byte) : list byte :=
+  match tab with
+  | [] => f sz k
+  | (s, a, b) :: r => if (s =? sz)%nat && bytes_eqb a k then b else lookup_or f r sz k
+  end.
+Definition F_tab (ft : tab3) := lookup_or F_model ft.
+Definition P_tab (pt : tab3) := lookup_or P_model pt.
+Definition m_recfile2 (d : byte) (t : table) :=
+  let ft := ftab t in let pt := ptab ft in m_recfile_gen (F_tab ft) (P_tab pt) d t.
+Definition m_sfile2 (d : byte) (t : table) :=
+  let ft := ftab t in let pt := ptab ft in m_sfile_gen (F_tab ft) (P_tab pt) d t.
+Definition extra_bits2 (ft pt : tab3) (d : byte) (t : table) : Z :=
   (if kf_leading_ws_after_numeric d t then 4 else 0)
-  + (if in_scope d t && negb (fcontract_b F_model P_model t) then 8 else 0).
+  + (if in_scope d t && negb (fcontract_b (F_tab ft) (P_tab pt) t) then 8 else 0).
 Definition v_recfile2 (d : byte) (t : table) (text : list byte) (out : result table) : Z :=
-  let m := m_recfile2 d t in
+  let ft := ftab t in let pt := ptab ft in
+  let m := m_recfile_gen (F_tab ft) (P_tab pt) d t in
   verdict (bytes_eqb (fst m) text && result_eqb table_eqb (snd m) out)
           (if in_scope d t then roundtrip_check t out else true)
-  + extra_bits2 d t.
+  + extra_bits2 ft pt d t.
 Definition v_sfile2 (d : byte) (t : table) (text : list byte) (h : hdr) (out : result table) : Z :=
-  let m := m_sfile2 d t in
+  let ft := ftab t in let pt := ptab ft in
+  let m := m_sfile_gen (F_tab ft) (P_tab pt) d t in
   verdict (bytes_eqb (fst (fst m)) text && hdr_eqb (snd (fst m)) h && result_eqb table_eqb (snd m) out)
           (if in_scope d t then roundtrip_check t out && header_check d t h else true)
-  + extra_bits2 d t.
+  + extra_bits2 ft pt d t.
